@@ -115,11 +115,15 @@ pub fn outline(c: &mut Chooser, task: &ExternalTask) -> Vec<Entry> {
                 // inductive lemma: N >= n -> F(N); N occurs several times, possibly re-bound inside F
                 let lower = c.next(4) as isize - 1;
                 let p = c.pick(&known).clone();
-                let mut f = g::bin(
-                    fol::BinaryConnective::Implication,
-                    atom(&p, vec![iv("N")]),
-                    cmp(iv("N"), fol::Relation::GreaterEqual, num(lower)),
-                );
+                // the core of the lemma: `p(N) -> N >= n` (true under the guard), the contingent `p(N) -> q(N)`,
+                // each also written with the reverse arrow
+                let q0 = known[c.aux(37 + i as u64, known.len())].clone();
+                let mut f = match c.aux(36 + i as u64, 5) {
+                    0 => g::bin(fol::BinaryConnective::ReverseImplication, cmp(iv("N"), fol::Relation::GreaterEqual, num(lower)), atom(&p, vec![iv("N")])),
+                    1 => g::bin(fol::BinaryConnective::Implication, atom(&p, vec![iv("N")]), atom(&q0, vec![iv("N")])),
+                    2 => g::bin(fol::BinaryConnective::ReverseImplication, atom(&q0, vec![iv("N")]), atom(&p, vec![iv("N")])),
+                    _ => g::bin(fol::BinaryConnective::Implication, atom(&p, vec![iv("N")]), cmp(iv("N"), fol::Relation::GreaterEqual, num(lower))),
+                };
                 if c.flag(2, 3) {
                     // a part that re-binds the induction variable (or binds another one): the
                     // substitution of the base case and of the step must leave it alone
